@@ -16,7 +16,8 @@ _tags = set()
 
 
 def B(name, default=None):
-    v = BOUNDS.get(name, default)
+    # a shard may override a bound of its tier: key 'b.<NAME>' in the shard
+    v = SHARD.get('b.' + name, BOUNDS.get(name, default))
     assert v is not None, 'bound %s not set' % name
     return v
 
